@@ -1,5 +1,7 @@
 import GoframeModel.Ops.SqlWrite
 import GoframeModel.Lemmas.SqlWrite
+import GoframeModel.Props.C13
+import GoframeModel.Lemmas.SqlParse
 /-
   C11 — SQL export writes every cell exactly once, for any dialect and batch size.
 -/
@@ -90,5 +92,114 @@ theorem invalid_options_no_calls (f : Frame) (table : Str) (o : WriteOpts) (ex :
   SqlLemmas.invalid_options_no_calls f table o ex fa h
 
 example : batches 2 5 = [(0, 2), (2, 4), (4, 5)] ∧ batches 1000 0 = [] ∧ batches 5 5 = [(0, 5)] := by decide
+
+
+/-- DROP and INSERT: for every table and column name, parsing the rendered text gives back the statement -/
+theorem parse_render_drop (d : Dialect) (t : Str) : parse (lex d (render d (.drop t))) = some (toP d (.drop t)) := by
+  rw [C13.drop_tokens]
+  exact SqlParseLemmas.parse_drop t
+
+theorem parse_render_insert (d : Dialect) (t : Str) (cols : List Str) (n : Nat) (hc : cols ≠ []) (hn : 0 < n) :
+    parse (lex d (render d (.insert t cols n))) = some (toP d (.insert t cols n)) := by
+  rw [C13.insert_tokens, SqlParseLemmas.parse_tokensOf_insert d t cols n hc hn]
+  have : phNumbers d cols.length n = SqlParseLemmas.phRows d cols.length n := by cases d <;> rfl
+  simp only [toP, this]
+
+/-- CREATE with the types goframe infers (no TypeMap override) -/
+theorem parse_render_create (d : Dialect) (t : Str) (cols : List (Str × Cell)) (hc : cols ≠ []) :
+    let stmt := Stmt.create t (cols.map (fun kc => (kc.1, sqlTypeOf d kc.2)))
+    parse (lex d (render d stmt)) = some (toP d stmt) := by
+  intro stmt
+  have hplain : ∀ c ∈ cols.map (fun kc => (kc.1, sqlTypeOf d kc.2)), C13.PlainType c.2 := by
+    intro c hc'
+    obtain ⟨kc, _, rfl⟩ := List.mem_map.1 hc'
+    exact SqlParseLemmas.sqlTypeOf_plain d kc.2
+  have hgood : ∀ c ∈ cols.map (fun kc => (kc.1, sqlTypeOf d kc.2)), SqlParseLemmas.Good (lex d c.2) := by
+    intro c hc'
+    obtain ⟨kc, _, rfl⟩ := List.mem_map.1 hc'
+    exact SqlParseLemmas.sqlTypeOf_good d kc.2
+  show parse (lex d (render d (.create t _))) = some (toP d (.create t _))
+  rw [C13.create_tokens d t _ hplain,
+    SqlParseLemmas.parse_tokensOf_create d t _ (by simpa using hc) hgood]
+  rfl
+
+/-- execute statement TEXTS with their bound values on the abstract database -/
+def execTexts (d : Dialect) : DB → List (Str × List Cell) → Option DB
+  | db, [] => some db
+  | db, (text, args) :: rest =>
+    match parse (lex d text) with
+    | none => none
+    | some s => (execP db s args).bind (fun db' => execTexts d db' rest)
+
+def textsOf (d : Dialect) (calls : List Call) : List (Str × List Cell) :=
+  calls.filterMap (fun c => match c with
+    | .exec s args => some (render d s, args)
+    | _ => none)
+
+/-- when every statement of a call list is parsed back from its rendered text, executing the texts is
+executing the calls -/
+theorem execTexts_eq_execCalls (d : Dialect) (calls : List Call)
+    (h : ∀ s args, Call.exec s args ∈ calls → parse (lex d (render d s)) = some (toP d s)) (db : DB) :
+    execTexts d db (textsOf d calls) = execCalls d db calls := by
+  induction calls generalizing db with
+  | nil => rfl
+  | cons c rest ih =>
+    have ih' := fun db => ih (fun s args hm => h s args (List.mem_cons_of_mem _ hm)) db
+    cases c with
+    | exec s args =>
+      have hp := h s args (by simp)
+      simp only [textsOf, List.filterMap_cons, execTexts, execCalls, hp]
+      congr 1
+      funext db'
+      exact ih' db'
+    | begin => simpa [textsOf, execCalls] using ih' db
+    | query text args => simpa [textsOf, execCalls] using ih' db
+    | commit => simpa [textsOf, execCalls] using ih' db
+    | rollback => simpa [textsOf, execCalls] using ih' db
+
+/-- every statement of an export plan without TypeMap is parsed back from its rendered text -/
+theorem body_calls_parse (f : Frame) (hne : f ≠ []) (table : Str) (r : Resolved) (hb : 0 < r.batch)
+    (htm : r.typeMap = []) (ex : Bool) (s : Stmt) (args : List Cell)
+    (hmem : Call.exec s args ∈ (bodyAfterQuery f table r ex).1) :
+    parse (lex r.dialect (render r.dialect s)) = some (toP r.dialect s) := by
+  unfold bodyAfterQuery at hmem
+  split at hmem
+  · simp at hmem
+  · simp only [List.mem_append] at hmem
+    rcases hmem with (hmem | hmem) | hmem
+    · split at hmem
+      · simp only [List.mem_singleton, Call.exec.injEq] at hmem
+        rw [hmem.1]; exact parse_render_drop _ _
+      · simp at hmem
+    · split at hmem
+      · simp at hmem
+      · simp only [List.mem_singleton, Call.exec.injEq] at hmem
+        rw [hmem.1]
+        have hcols : f.map (fun kc => (kc.1, columnType r.dialect r.typeMap kc.1 kc.2.data)) =
+            (f.map (fun kc => (kc.1, firstNonNil kc.2.data))).map (fun kc => (kc.1, sqlTypeOf r.dialect kc.2)) := by
+          simp [htm, columnType, List.map_map, Function.comp_def]
+        rw [hcols]
+        exact parse_render_create r.dialect table _ (by simpa using hne)
+    · split at hmem
+      · simp at hmem
+      · obtain ⟨lh, hlh, heq⟩ := List.mem_map.1 hmem
+        have hlt := ((batches_cover r.batch f.nrows hb).2 lh hlh).1
+        simp only [insertCall, Call.exec.injEq] at heq
+        rw [← heq.1]
+        exact parse_render_insert r.dialect table f.keys _ (by simpa [Frame.keys] using hne) (by omega)
+
+/-- new table (or replace), no TypeMap: executing the RENDERED SQL TEXT of the plan, lexed and parsed by the
+independent lexer, leaves the table holding exactly the frame's rows in frame order -/
+theorem rendered_plan_final_table_new (f : Frame) {n : Nat} (hs : f.Sorted) (hr : f.RectN n) (hne : f ≠ []) (table : Str)
+    (r : Resolved) (hb : 0 < r.batch) (htm : r.typeMap = []) (ex : Bool) (hmode : ex = false ∨ r.mode = .replace) :
+    let old : Table := { cols := f.keys.map (fun k => (k, [])), rows := [f.keys.map (fun k => (k, Cell.nil))] }
+    let init : DB := if ex then [(table, old)] else []
+    ∃ db', execTexts r.dialect init (textsOf r.dialect (bodyAfterQuery f table r ex).1) = some db' ∧
+      (db'.get? table).map (·.rows) =
+        some ((List.range n).map (fun i => f.map (fun kc => (kc.1, bound (kc.2.data.getD i .nil))))) := by
+  intro old init
+  rw [execTexts_eq_execCalls r.dialect _ (body_calls_parse f hne table r hb htm ex) init]
+  exact plan_final_table_new f hs hr hne table r hb ex hmode
+
 
 end Goframe.C11
